@@ -71,6 +71,11 @@ CLAIMS["C16"] = dict(
     tech="Coq proof (prefix-stability of the parser decision, induction over the list of reads: responses independent of segmentation; content-length = body; keep-alive/close/stall/malformed policy; stop frees the port) + differential execution of model and real sim::http_server on generated client byte streams cut at random points + independent response-stream oracle",
     text="Theorems in coq/Properties/Properties_C16.v for every set of handlers, every byte stream and every way of cutting it into reads: the list of responses and the final connection state equal those of the whole stream; one response per request in order, continuing iff keep-alive and no 'Connection: close'; stalling paths are silent, malformed input closes; content-length equals the body for fixed, whole-content and ranged answers; errors/EOF close that connection; after stop() the endpoint is out of the registry and a connect is refused.")
 
+CLAIMS["C18"] = dict(
+    note=COMMON_NOTE + "Model: coq/Model/Apps.v (sim::http_proxy as a program over the socket and resolver model: constructor, on_accept, on_read_request/proxy_decide, forward_request = rewrite_request + proxy_forward, on_domain_lookup, open_forward_connection, on_connected, write_server_send_buffer/on_server_write, on_server_receive/on_server_forward, error, close_connection, stop). PARTIAL: the segmentation theorem is about the connection automaton feed/serve built from proxy_decide, which the on_read_request loop executes (theorem C18_on_read_request_follows_the_decision); the relay theorem is the one-step statement (bytes read from the origin are the bytes written to the client), its iteration over whole executions is covered by the correspondence and the oracle. make_address is modelled for dotted quads and '::'+hex only. Two defects of the proxy were found and repaired (known_findings.json: one lookup per pipelined request; colon inside an IPv6 literal).",
+    tech="Coq proof (origin form of rewrite_request, default port, rejection; prefix-stability of the decision and induction over reads: forwarded requests independent of segmentation, one per request in order; verbatim relay step; 503 on failed lookup) + differential execution of model and real sim::http_proxy between generated clients and two kinds of origin + independent oracle on bytes seen by clients and by a raw origin",
+    text="Theorems in coq/Properties/Properties_C18.v for every request, byte stream and segmentation: an absolute http URI is forwarded as METHOD SP path SP HTTP/1.1 with all headers and a Host header when missing, port 80 by default; any other form is rejected and closes the connection; the sequence of forwarded requests does not depend on how the client's bytes were cut, one per request in order; what is read from the origin is written to the client unchanged; an unresolvable or empty lookup answers 503.")
+
 NOT_YET = "not built in this round: the server models (HttpServer/Socks/HttpProxy over abstract streams, DESIGN.md section 7) were not reached; no check is registered and nothing is claimed"
 
 
